@@ -118,7 +118,7 @@ class KaniRunner:
         blocks = re.findall(r"^(error(?:\[E\d+\])?:.*?)(?=^(?:warning|error)|\Z)", p.stderr + p.stdout, re.M | re.S)
         return "\n".join(b.strip()[:1200] for b in blocks[:8]) or (p.stderr[-3000:])
 
-    def run_one(self, fq, timeout=None, extra=None, playback=False):
+    def run_one(self, fq, timeout=None, extra=None, playback=False, mem_gb=None):
         cmd = ["cargo", "kani", "--harness", fq, "--exact", "--target-dir", self._target()]
         if self.stubbing:
             cmd += ["-Z", "stubbing"]
@@ -129,7 +129,7 @@ class KaniRunner:
         to = timeout or self.timeout
         try:
             p = subprocess.Popen(cmd, cwd=self.crate, env=self.env, stdout=subprocess.PIPE, stderr=subprocess.PIPE,
-                                 text=True, preexec_fn=_limit(self.mem_gb))
+                                 text=True, preexec_fn=_limit(mem_gb or self.mem_gb))
             try:
                 out, err = p.communicate(timeout=to)
                 rc = p.returncode
